@@ -103,6 +103,10 @@ class ExtGrid(NodeElementComponent):
         mdot = cls.sign() * (sum_mass_flows / counts)[inverse_nodes]
         # an external grid at a junction that is not part of the calculated network does not feed anything
         mdot[~get_lookup(net, "node", "active_hydraulics")[eg_nodes]] = np.nan
+        if mode == "heat":
+            # the mass flows of the slack nodes are not part of the hydraulic solution that a thermal-only
+            # calculation starts from
+            mdot[:] = np.nan
         res_table["mdot_kg_per_s"].values[p_grids] = mdot
         return res_table, ext_grids, node_pit, branch_pit
 
